@@ -365,8 +365,12 @@ class Parser:
             # Leading zeros are not allowed in the integer part.
             raise JSONPathSyntaxError("invalid integer literal", token=stream.current)
 
-        # Convert to float first to handle scientific notation.
         try:
+            if value.lstrip("-").isdecimal():
+                # Plain digits are read exactly, like a JSON decoder reads them,
+                # so an integer beyond 2**53 equals the same integer in the data.
+                return IntegerLiteral(stream.current, value=int(value))
+            # Convert to float first to handle scientific notation.
             return IntegerLiteral(stream.current, value=int(float(value)))
         except (ValueError, OverflowError) as err:
             raise JSONPathSyntaxError(
